@@ -110,7 +110,7 @@ def main():
      "engines": [{"name": "pbt", "path": "pbt/", "serves_properties": sorted(CHECKS),
                   "kind_free_text": "Hypothesis-driven generated-input search with explicit oracles, 16-way sharded, seeded by VERIF_SEED; collect-then-shrink with root-cause signatures; exhaustive enumeration of finite sub-domains"}],
      "checks": [],
-     "notes": "Every check: ./check <id> --tier quick|thorough [--seed N]; exit 0 held / 1 VIOLATION / 2 harness error. known_findings.json lists genuine defects (known, excluded by exact signature) and repaired ones (fixed:, never suppressed). tools/baseline.py re-runs the repository suite against BASELINE.json.",
+     "notes": "Generator dimensions added after three rounds of seeded changes (aliased object graphs, same-named classes in different namespaces, neighbour protocol instances and applications sharing classes, earlier calls on the same application or function handle, non-default protocol / decorator options, late-declared classes) are part of every tier; DESIGN.md 8.1 lists them per seed. Every check: ./check <id> --tier quick|thorough [--seed N]; exit 0 held / 1 VIOLATION / 2 harness error. known_findings.json lists genuine defects (known, excluded by exact signature) and repaired ones (fixed:, never suppressed). tools/baseline.py re-runs the repository suite against BASELINE.json.",
      "not_applicable": [],
     }
     for pid in ALL:
